@@ -36,7 +36,7 @@ def args_for(fe, cls, rules):
         "valid": ["-enable=dupCase,assignOp,elseif,sloppyLen,captLocal"],
         "badGoVersion": ["-go=abc"],
         "unknownFailOn": ["-enable=ruleguard", "-@ruleguard.rules=" + rules, "-@ruleguard.failOn=bogus"],
-        "noMatchPattern": ["-enable=ruleguard", "-@ruleguard.rules=/nonexistent/verif-*.go"],
+        "noMatchPattern": ["-enable=ruleguard", "-@ruleguard.rules=" + rules + ",/nonexistent/verif-*.go"],
         "emptySelection": ["-enable=noSuchChecker"],
         "badParamValue": ["-@hugeParam.sizeThreshold=abc"],
         "unknownFlag": ["-noSuchFlagAtAll"],
@@ -62,7 +62,7 @@ def run(ctx):
     if len(states) != 84:
         raise vlib.Infra("expected 84 terminal cases from ConfigErrors, got %d" % len(states))
 
-    w = wsmod.make(ctx, "ws_c19", 3, pick=["dupCase", "assignOp", "elseif"])
+    w = wsmod.make(ctx, "ws_c19", 3, pick=["dupCase", "assignOp", "elseif"], dsl=True)
     rules = os.path.join(vlib.REPO, "checkers", "testdata", "_integration", "ruleguard", "rules.go")
     bins = {fe: ctx.build_repo_bin(p) for fe, p in BIN.items()}
     executed = 0
@@ -142,12 +142,66 @@ def first_crash_line(err):
     return err[-300:]
 
 
+# dereferences, calls, ranges, conversions, comparisons, appends ... whose operands have no recorded type
+ILL_TYPED = """package a
+
+import "example.com/nowhere/missing"
+
+type S struct{ n int }
+
+func ill1() int { return (*q).n + (*missing.P).n + (*(*r)).n }
+
+func ill2() {
+	for _, v := range undefinedSlice {
+		_ = v
+	}
+	for i := range missing.Xs {
+		_ = i
+	}
+	xs = append(xs, undefinedVal)
+	ys := append(missing.Ys, 1)
+	_ = ys
+	if undefinedA == undefinedA || missing.B != missing.B {
+	}
+	switch undefinedT.(type) {
+	case int, missing.T:
+	}
+	switch v := undefinedT.(type) {
+	case nil:
+		_ = v
+	}
+	_ = len(undefinedSlice) >= 0
+	_ = int16(undefinedInt) < int16(0)
+	_ = *new(missing.T)
+	_ = string(undefinedBytes) == ""
+	_ = undefinedStr + "" + undefinedStr
+	undefinedX = undefinedX + 1
+	defer undefinedF()
+	go missing.G()
+	var m map[missing.K]missing.V
+	_ = m[undefinedKey]
+	_ = func(p missing.Huge, q [1024]undefinedElem) {}
+	_ = undefinedPtr.field.method(undefinedArg...)
+	_ = S{n: undefinedN}.n
+	_ = &undefinedComposite{a: 1}
+	return
+}
+
+func (r *undefinedRecv) m(x missing.T) (missing.U, error) { return r.f(), nil }
+
+func ill3(a undefinedParam, b ...missing.Variadic) (c undefinedResult) {
+	c, _ = a.(undefinedAssert)
+	return
+}
+"""
+
 BROKEN = {
     "syntax": {"a.go": "package a\n\nfunc F( {\n"},
     "types": {"a.go": "package a\n\nfunc F() int { x := 1; x = x + 1; return \"s\" }\n\nfunc G(xs []int) bool { return len(xs) >= 0 }\n"},
     "import": {"a.go": "package a\n\nimport \"example.com/nowhere/zzz\"\n\nfunc F() { zzz.G() }\n\nfunc G(xs []int) bool { return len(xs) >= 0 }\n"},
     "mixed": {"a.go": "package a\n\nfunc F() {}\n", "b.go": "package b\n\nfunc G() {}\n"},
-    "undefined": {"a.go": "package a\n\nfunc F() { var x T; x.m(); y := undefinedFn(x); _ = y }\n\nfunc H(s string) bool { return len(s) == 0 }\n"},
+    "undefined": {"a.go": "package a\n\nfunc F() { var x T; x.m(); y := undefinedFn(x); _ = y }\n\nfunc H(s string) bool { return len(s) == 0 }\n",
+                  "b.go": ILL_TYPED},
 }
 
 
